@@ -458,8 +458,8 @@ def e2e_eval(spec, verbose=False):
     files = e2e_files(spec)
     # the statement holds whatever else is switched on: vary switches that change which OTHER stages are
     # registered around the prep sweep (derived from the scenario so that a case replays identically)
-    extra = [[], [], ["--drop_globals"], ["-t"], ["--disable_tb"], ["--drop_globals", "-t"]][
-        (sum(len(f) for f in spec["ranks"]) + len(spec["ranks"])) % 6]
+    nsel = sum(len(f) for f in spec["ranks"]) + len(spec["ranks"])
+    extra = [[], [], ["--drop_globals"], ["-t"], ["--disable_tb"], ["--drop_globals", "-t"]][nsel % 6]
     base = ["--freq", str(spec.get("freq", 512))] + extra
     with contextlib.redirect_stdout(io.StringIO()):
         rk = stage.e2e(base + ["--keep_prep"], files)
@@ -468,6 +468,23 @@ def e2e_eval(spec, verbose=False):
         if r["rc"] != 0 or r["events"] is None:
             return ("preps-crash", f"acelyzer {tag} failed: rc={r['rc']} {r['error']}"), {}
     info = {}
+    if nsel % 3 == 0:
+        # without clock alignment (-M) the sweep is still registered: Prep slices are removed and every rank with Prep
+        # slices gets its counter (the VALUES are not judged here: without the alignment stage nothing sorts the stream
+        # in front of the sweep, the statement's series clauses are decided on the runs above)
+        with contextlib.redirect_stdout(io.StringIO()):
+            rm = stage.e2e(base + ["-M"], files)
+        if rm["rc"] != 0 or rm["events"] is None:
+            return ("preps-crash", f"acelyzer -M failed: rc={rm['rc']} {rm['error']}"), {}
+        left = [e for e in rm["events"] if e.get("ph") == "X" and str(e.get("name", "")).endswith("Cmpt Prep")]
+        if left:
+            return ("preps-not-removed", f"-M: {len(left)} Prep slice(s) exported without --keep_prep"), info
+        have = {e["pid"] for e in rm["events"] if e.get("ph") == "C" and e.get("name") == "ConcurrentPreps"}
+        want = {r for r, f in enumerate(spec["ranks"]) if len(f) > 0}
+        info["samples_-M"] = len(have)
+        if not want <= have:
+            return ("preps-no-counter", f"-M: no ConcurrentPreps counter for rank(s) {sorted(want - have)} although they have "
+                                        f"Prep slices and the prep_queue counter is active"), info
     slices_keep = [e for e in rk["events"] if e.get("ph") == "X" and str(e.get("name", "")).endswith("Cmpt Prep")]
     slices_def = [e for e in rd["events"] if e.get("ph") == "X" and str(e.get("name", "")).endswith("Cmpt Prep")]
     nprep = sum(len(f) for f in spec["ranks"])
